@@ -193,10 +193,19 @@ def extreme_documents():
     # x-bytes: the bytes values are equal or inserted next to non-bytes; x-bytes-diff: two different bytes values
     by_a, by_b = {'by': b'\xff\x00by', 'l': [1]}, {'by': b'\xff\x00by', 'l': [1, b'zz', b'']}
     byd_a, byd_b = {'by': b'\xff\x00by'}, {'by': b'\xff\x01by'}
+    # non-string mapping keys (yaml, pickle): an unchanged key with a changed value, a removed and an inserted pair
+    keys_a = {'m': {1: 'one', 2.5: 'two', False: 'no', 2 ** 64: 'big', 's': 'str'}, 7: [1]}
+    keys_b = {'m': {1: 'uno', False: 'no', 2 ** 64: 'big', 's': 'str', 3: 'three', -0.5: 'neg'}, 7: [1, 2]}
+    ykeys = ('x-keys', yd(keys_a), yd(keys_b))
+    ynull = ('x-nullkey', u('m:\n  null: x\n  1: y\n'), u('m:\n  null: z\n  1: y\n'))
+    # pickle also carries tuple / None / bytes keys (bytes: protocol 4)
+    pk2_a = {(1, 2): 't', None: 'n', 1: 'a', b'kb': 'b'}
+    pk2_b = {(1, 2): 'u', None: 'n', 2: 'a', b'kb': 'b', 3: 'v'}
+    tk_a, tk_b = {(1, 2): 't', (3,): 'v'}, {(1, 2): 't', (3,): 'w'}     # two tuple keys: dies in the loader
     return {
         'json': [(n, jd(a), jd(b)) for n, a, b in pairs],
         'json5': [(n, jd(a), jd(b)) for n, a, b in pairs],
-        'yaml': [(n, yd(a), yd(b)) for n, a, b in pairs],
+        'yaml': [(n, yd(a), yd(b)) for n, a, b in pairs] + [ykeys, ynull],
         'csv': [('x-str', cs(csv_a), cs(csv_b))],
         'xml': [('x-str', xs(xstr_a), xs(xstr_b)), ('x-deep', xs(xdeep_a), xs(xdeep_b))],
         'html': [('x-str', xs(xstr_a), xs(xstr_b)), ('x-deep', xs(xdeep_a), xs(xdeep_b))],
@@ -204,7 +213,10 @@ def extreme_documents():
                    plistlib.dumps(b, fmt=plistlib.FMT_XML, sort_keys=True)) for n, a, b in pl],
         'pickle': [(n, pickle.dumps(a, protocol=2), pickle.dumps(b, protocol=2)) for n, a, b in pairs]
                   + [('x-bytes', pickle.dumps(by_a, protocol=4), pickle.dumps(by_b, protocol=4)),
-                     ('x-bytes-diff', pickle.dumps(byd_a, protocol=4), pickle.dumps(byd_b, protocol=4))],
+                     ('x-bytes-diff', pickle.dumps(byd_a, protocol=4), pickle.dumps(byd_b, protocol=4)),
+                     ('x-keys', pickle.dumps(keys_a, protocol=2), pickle.dumps(keys_b, protocol=2)),
+                     ('x-keys2', pickle.dumps(pk2_a, protocol=4), pickle.dumps(pk2_b, protocol=4)),
+                     ('x-tuplekeys', pickle.dumps(tk_a, protocol=2), pickle.dumps(tk_b, protocol=2))],
     }
 
 
@@ -283,10 +295,16 @@ def impl_run(item):
     max_events = item.get('max_events', 400)
     current = {'haskids': False, 'kind': ''}
     leaf_type = graphtage.LeafNode
+    kvp_type = graphtage.KeyValuePairNode
 
     def method(self, it_):
         current['haskids'] = isinstance(it_, gt.TreeNode) and len(it_.children()) > 0
-        current['kind'] = gen_dispatch.scalar_kind(it_.object) if isinstance(it_, leaf_type) else ''
+        if isinstance(it_, leaf_type):
+            current['kind'] = gen_dispatch.scalar_kind(it_.object)
+        elif isinstance(it_, kvp_type) and isinstance(it_.key, leaf_type):
+            current['kind'] = 'key:' + gen_dispatch.scalar_kind(it_.key.object)
+        else:
+            current['kind'] = ''
         try:
             return orig_method(self, it_)
         finally:
@@ -336,6 +354,8 @@ def impl_run(item):
                 for n in t.dfs():
                     if isinstance(n, leaf_type):
                         kinds.add(gen_dispatch.scalar_kind(n.object))
+                    elif isinstance(n, kvp_type) and isinstance(n.key, leaf_type):
+                        kinds.add('key:' + gen_dispatch.scalar_kind(n.key.object))
                     for ch in n.children():
                         pairs.add((type(n).__name__, type(ch).__name__))
             return t
@@ -394,8 +414,8 @@ THEOREMS = ['C13_cover', 'C13_dispatch_total', 'C13_no_loop', 'C13_partial', 'C1
 OPTS = ['', '-k', '-ds match', '-ds none', '-l', '-ll']
 DS_CTOR = {'-k': 'DSNone', '-ds none': 'DSNone', '-ds match': 'DSMatch'}
 LF_CTOR = {'-l': 'LNoListEdits', '-ll': 'LSameLength'}
-KF_CLASSES = ['kf_reparent', 'kf_plist_null', 'kf_yaml_bytes', 'kf_bytes_diff']
-KF_TERMS = {'kf_bytes_diff': 'kf_bytes_diff'}     # predicates that do not consult the tables
+KF_CLASSES = ['kf_reparent', 'kf_plist_null', 'kf_yaml_bytes', 'kf_bytes_diff', 'kf_yaml_null_key', 'kf_tuple_keys']
+KF_TERMS = {'kf_bytes_diff': 'kf_bytes_diff', 'kf_yaml_null_key': 'kf_yaml_null_key', 'kf_tuple_keys': 'kf_tuple_keys'}     # predicates that do not consult the tables
 MODE_CTOR = {'diff': 'MDiff', 'e': 'MEdits', 'd': 'MDigest'}
 STYLE_CTOR = {'plain': 'SPlain', 'color': 'SColor', 'html': 'SHtml'}
 
@@ -470,6 +490,15 @@ def product(tier, seed):
                         items.append(item(it, of, mode, rng.choice(STYLES), rng.random() < 0.5, diff, dn, a, b, opt))
                 for di, (dn2, a2, b2) in enumerate(extreme):
                     st, j = rng.choice(STYLES), rng.random() < 0.5
+                    if dn2 in ('x-nullkey', 'x-tuplekeys'):       # die in the loader whatever the format: one run per format
+                        items.append(item(it, of, 'diff', st, j, True, dn2, a2, b2))
+                        continue
+                    if dn2.startswith('x-keys'):
+                        # non-string keys: full diff on the equal AND the different pair, and under -k (full diff and -d)
+                        items.append(item(it, of, 'diff', rng.choice(STYLES), rng.random() < 0.5,
+                                          (seed + oi + di) % 2 != 0, dn2, a2, b2))
+                        items.append(item(it, of, 'diff', rng.choice(STYLES), rng.random() < 0.5, True, dn2, a2, b2, '-k'))
+                        items.append(item(it, of, 'd', rng.choice(STYLES), rng.random() < 0.5, True, dn2, a2, b2, '-k'))
                     items.append(item(it, of, 'diff', st, j, (seed + oi + di) % 2 == 0, dn2, a2, b2))
                     items.append(item(it, of, 'd', rng.choice(STYLES), rng.random() < 0.5, True, dn2, a2, b2))
                     if di == (seed + oi) % len(extreme):
